@@ -425,7 +425,17 @@ func (p *Program) StoreReads() []*StoreRead {
 			continue
 		}
 		x := p.Ex(fn)
-		for _, cs := range p.CallsInOwn(fn) {
+		absorbed := p.Absorbed(fn)
+		for _, cs := range p.CallsIn(fn) {
+			// a read inside a helper that exists only inlined (a shared "open the iterator for this prefix") is read
+			// where it was inlined, with the caller's prefix; its parameterised original is not a read of its own
+			if p.IsClone(cs.Ins) {
+				if o := p.OriginFn(cs.Ins); o == nil || !p.Absorbed(o) {
+					continue
+				}
+			} else if absorbed {
+				continue
+			}
 			c := cs.Ins.Common()
 			var op string
 			var storeV, keyV ssa.Value
